@@ -318,7 +318,10 @@ func noReplyFaultFree(sc *Scenario, rr *RunResult) string {
 	}
 	for i, c := range rr.Clients {
 		for _, op := range c.ops {
-			if !op.Done && (op.Abandoned == "timeout" || op.Abandoned == "unanswered") {
+			// (a client-side timeout proves nothing: the scheduler may delay
+			// deliveries beyond it; only configurations whose clients never give
+			// up reach "unanswered", after everything has been delivered)
+			if !op.Done && op.Abandoned == "unanswered" {
 				return fmt.Sprintf("client %d never received the reply to %s (sent to node %d) although no fault was injected", i, cmdString(op.Args), op.Node)
 			}
 		}
